@@ -545,7 +545,7 @@ func TestC03(t *testing.T) {
 	}
 	if r.Thorough() {
 		rng := r.Rand(3)
-		for i := 0; i < 60000; i++ {
+		for i := 0; i < 300000; i++ {
 			c := c03Case{Transport: transports[rng.IntN(3)], Window: []string{"onclose", "close", "none", "handshake"}[rng.IntN(4)], Buffered: rng.IntN(2) == 0}
 			n := 1 + rng.IntN(3)
 			for k := 0; k < n; k++ {
